@@ -897,6 +897,8 @@ func init() {
 	integerFuncSignature[d] = ast.TInt
 	d[0] = ast.TFloat
 	integerFuncSignature[d] = ast.TInt
+	d[0] = ast.TDuration
+	integerFuncSignature[d] = ast.TInt
 }
 
 func (integer) Signature() map[Domain]ast.ValueType {
@@ -1050,6 +1052,8 @@ var durationFuncSignature = map[Domain]ast.ValueType{}
 func init() {
 	d := Domain{}
 	d[0] = ast.TDuration
+	durationFuncSignature[d] = ast.TDuration
+	d[0] = ast.TString
 	durationFuncSignature[d] = ast.TDuration
 	d[0] = ast.TInt
 	d[1] = ast.TDuration
@@ -1553,6 +1557,12 @@ func init() {
 	d[0] = ast.TInt
 	isPresentFuncSignature[d] = ast.TBool
 	d[0] = ast.TFloat
+	isPresentFuncSignature[d] = ast.TBool
+	d[0] = ast.TDuration
+	isPresentFuncSignature[d] = ast.TBool
+	d[0] = ast.TTime
+	isPresentFuncSignature[d] = ast.TBool
+	d[0] = ast.TRegex
 	isPresentFuncSignature[d] = ast.TBool
 }
 
